@@ -69,6 +69,10 @@ CLAIMS.update({
    text="The C runtime's Text functions are extracted mechanically from the tree's C sources on every run (clang -O0 LLVM IR -> Go, one statement per IR instruction; DESIGN 3b) and verified function by function against contracts over a ghost byte-memory model (blocks with contents and size; every byte access is an obligation 'inside a live block'). Proved for all inputs: the UTF-8 byte classes and widths of utf8.c (continuation/lead classification by bit masks, utf8_indicated_num_bytes, utf8_num_bytes = width of the first well-formed character or 0, utf8_num_bytes_char = encoding length or -1 for non-scalar values incl. surrogates); utf8_strlen and ddp_string_length return the number of code points (count of lead bytes - a counting quantifier with loop invariant); utf8_char_to_string/utf8_string_to_char against the encoding/decoding arithmetic (glibc's conversion functions trusted); indexing returns the index-th code point and errors exactly outside 1..length; character replacement keeps the bytes before and after and yields a well-formed Text of the right length for shorter, equal and longer encodings; the three concatenations produce exactly the bytes of the operands in order, consume their Text operand and keep the other; Buchstabe->Text conversion; copies are byte-identical and fresh; equality holds exactly for equal byte sequences (and is memory-safe for the non-canonical empty Texts the runtime produces). Texts are well-formed (cap bytes, one terminating NUL) after every operation. Not decided: slicing (ddp_string_slice), number<->Text conversions, iteration code emitted by the compiler, that operations preserve UTF-8 validity (validT is a precondition of indexing/replacement, not yet a postcondition), normalisation questions.",
    note="Trusted: clang -O0 IR as the meaning of C, the extraction tool, libc contracts (strlen, memcpy, memmove, memcmp, realloc, free), glibc c32rtomb/mbrtoc32 (observed behaviour: encodes up to 0x7fffffff), out-of-memory not modelled, signed 64-bit integers with every overflow an obligation (stricter than C for size_t).",
    ref="6/C12"),
+ "C05": dict(
+   text="Partial: the two ledgers the statement names, each at the level where contracts can state it. (1) Compile-time ownership ledger (scope.go / compiler.go, Go): addTemporary appends exactly one unprotected entry and changes no other; claimTemporary removes exactly the last entry recorded for the value (ownership moves to the caller) and keeps every other entry in order; protect/unprotect flip the flag of that entry only; freeNonPrimitive emits exactly one call, of the descriptor's own free function on that value, iff the type is not primitive; freeTemporaries emits exactly count{k : (!protected[k] or force) and not primitive[k]} calls - one per eligible ledger entry, in order, with its own descriptor (loop invariant with a counting quantifier over the ledger); exitScope releases only variables that are neither references nor protected and then the unprotected temporaries; claimOrCopy claims exactly temporaries and deep-copies exactly non-temporaries. (2) Run-time ledger (C runtime, extracted mechanically, DESIGN 3b): ddp_reallocate is verified against a block model (release <=> newSize == 0, the old block is gone exactly when a different one is returned, contents preserved up to min(old,new), no other block changes) and its precondition 'pointer is NULL with size 0, or the start of a live block whose true size is oldSize' is proved at every call site in the extracted Text functions (free, copy, from_constant, three concatenations, Buchstabe->Text, character replacement); every byte access in these functions lies inside a live block; consumed operands are left as the empty Text and their block is reused or released. Not decided: that generated programs call these operations in an order that releases every block exactly once (a whole-program property of the emitted IR: early returns, loops, short-circuit operands), lists and Variable (unions/vtables are outside the extraction), -O2 copy elision.",
+   note="Trusted: llir NewCall counts as one emitted call (ghost counter), descriptor accessors pure, map iteration model of go/ssa; for the C part: as for C12 (clang -O0 IR, extraction tool, libc contracts incl. realloc modelled as always moving and never failing).",
+   ref="6/C05"),
 })
 NA = {
  "C08": "relational whole-program property (no holder observes another holder's mutation); no function contract within reach states it; the local copy/claim mechanics are covered under C05/C18 where claimed",
